@@ -41,12 +41,15 @@ BadDist == ACall("l2_distance", <<ACall("list", <<AInt(1), AInt(2)>>), ACall("li
 
 KeyPool == { AStr(k1), AStr(k2), AInt(7), ABin("+", AStr(<<107>>), AStr(<<51>>)), ACall("upper", <<AStr(k4)>>),
              ACall("lower", <<AStr(<<75, 49>>)>>), DivZero, KeyOnKey, ConcFail, AStr(<<97, 98, 255, 99>>) }
-ValPool == { AStr(<<118, 49>>), AInt(5), ABin("+", AStr(<<118, 95>>), AKey), ACall("upper", <<ABin("+", AStr(<<118>>), AKey)>>),
+ValPool == { AStr(<<>>), AStr(<<118, 49>>), AInt(5), ABin("+", AStr(<<118, 95>>), AKey), ACall("upper", <<ABin("+", AStr(<<118>>), AKey)>>),
              ACall("str", <<ACall("strlen", <<AKey>>)>>), BadDist, AFlt(3, 1), DivFZero, DivFZero2, ConcFail, MathFail }
 SmallKeys == { AStr(k1), ACall("lower", <<AStr(<<75, 49>>)>>), AStr(k2), KeyOnKey }
-SmallVals == { AStr(<<118, 49>>), ABin("+", AStr(<<118, 95>>), AKey), BadDist, DivFZero, ConcFail, ACall("upper", <<AKey>>) }
+SmallVals == { AStr(<<>>), AStr(<<118, 49>>), ABin("+", AStr(<<118, 95>>), AKey), BadDist, DivFZero, ConcFail, ACall("upper", <<AKey>>) }
 
-PairSeqs == { <<PP(k, v)>> : k \in KeyPool, v \in ValPool }
+\* fourteen pairs over seven keys: every key written twice, the later value must win whatever the order of the keys
+KN(i) == <<107, 48 + i>>
+LongPairs(rot) == [i \in 1..14 |-> PP(AStr(KN(((i * rot) % 7) + 1)), AStr(<<118>> \o (IF i < 10 THEN <<48 + i>> ELSE <<49, 48 + (i - 10)>>)))]
+PairSeqs == { LongPairs(r) : r \in {1, 2, 3, 5} } \cup { <<PP(k, v)>> : k \in KeyPool, v \in ValPool }
             \cup (IF MaxPairs >= 2 THEN { <<PP(a, b), PP(c, d)>> : a \in KeyPool, b \in ValPool, c \in KeyPool, d \in SmallVals } ELSE {})
             \cup (IF MaxPairs >= 3 THEN { <<PP(a, b), PP(c, d), PP(e, f)>> : a \in SmallKeys, b \in SmallVals, c \in SmallKeys, d \in SmallVals, e \in SmallKeys, f \in SmallVals } ELSE {})
 \* (REMOVE refuses `key`: its key expressions are taken from the pools without KeyOnKey)
@@ -128,7 +131,12 @@ MatrixStmts == {
   Remove(<<AStr(k5), AStr(k1), AStr(k2), AStr(k3), AStr(<<122>>)>>),
   Put(<<PP(AStr(k1), AStr(va)), PP(AStr(<<122>>), AStr(vb)), PP(AStr(k2), AStr(va))>>),
   Delete(AIn(AKey, <<AStr(k1), AStr(k2), AStr(k3), AStr(k5)>>), NoLim),
-  Delete(ABin("&", AIn(AKey, <<AStr(k1), AStr(k2), AStr(k3)>>), ABin("!=", AVal, AStr(<<120>>))), NoLim)
+  Delete(ABin("&", AIn(AKey, <<AStr(k1), AStr(k2), AStr(k3)>>), ABin("!=", AVal, AStr(<<120>>))), NoLim),
+  \* point reads that include the empty key; a PUT that repeats a key (several single writes in some implementations)
+  Select(<<>>, AIn(AKey, <<AStr(<<>>), AStr(k1), AStr(k3)>>), <<>>, <<>>, NoLim),
+  Select(<<>>, ABin("<=", AKey, AStr(<<>>)), <<>>, <<>>, NoLim),
+  Delete(ABin("&", AIn(AKey, <<AStr(<<>>), AStr(k2)>>), ABin("!=", AVal, AStr(<<120>>))), NoLim),
+  Put(<<PP(AStr(k1), AStr(va)), PP(AStr(k1), AStr(vb)), PP(AStr(k2), AStr(va)), PP(AStr(k1), AStr(va))>>)
 }
 RejectedTexts == { "select * where", "select * where key = 1", "put ('a')", "delete where key ^= 1", "remove key",
                    "select nosuch(key) where key = 'k1'", "put ('k9', value)", "delete where key = 'k1' limit", "selec * where key = 'k1'" }
